@@ -67,6 +67,30 @@ theorem stl_stored_normal_returned (q32 : ℝ → W32) (up : W32 → ℝ) (t : T
     triNormal (genParams q32 up) t = t.n.map up := by
   simp [triNormal, hz, genParams]
 
+/-! ### ReadMesh → WriteMesh with the source's expressions: a non-unit stored normal is normalised -/
+
+/-- a toy exact precision: words are naturals, `up` embeds them in ℝ, `q32` takes the floor -/
+noncomputable def floorQ (x : ℝ) : W32 := BitVec.ofNat 32 ⌊x⌋₊
+def embedUp (w : W32) : ℝ := (w.toNat : ℝ)
+
+/-- **closed instance (a)**: a record whose stored normal is (0,0,2) — not unit — is re-saved with normal
+    (0,0,1): `WriteMesh` re-derives `q32 (avgNormal n n n)`, the normalised stored normal, not the stored one. -/
+theorem stl_mesh_resave_nonunit_normal_witness :
+    (resaveTri (genParams floorQ embedUp) true ⟨⟨0, 0, 2⟩, ⟨0, 0, 0⟩, ⟨1, 0, 0⟩, ⟨0, 1, 0⟩, 0⟩).n = ⟨0, 0, 1⟩ := by
+  have hz : isZeroV (⟨0, 0, 2⟩ : P3 W32) = false := by decide
+  have h2 : Real.sqrt ((2 : ℝ) * 2) = 2 := by
+    rw [show (2 : ℝ) * 2 = 2 ^ 2 by norm_num]; exact Real.sqrt_sq (by norm_num)
+  simp only [resaveTri, triNormal, hz, genParams, P3.map, toV, ofV, embedUp, floorQ, Gen.StlNormals.avgNormal,
+    V3.Normalized, V3.DivByConstant, V3.Add, V3.Length, V3.LengthSquared, RS.sqrt_eq]
+  have e2 : ((BitVec.toNat (2 : W32) : ℕ) : ℝ) = 2 := by
+    have : BitVec.toNat (2 : W32) = 2 := by decide
+    rw [this]; norm_num
+  have e6 : ((2 : ℝ) + 2 + 2) / 3 = 2 := by norm_num
+  simp only [e2, e6, h2]
+  norm_num
+  exact ⟨rfl, rfl⟩
+
+
 /-- the hypotheses are satisfiable: three corner normals that do not cancel, a non-degenerate triangle -/
 example : sum3 ⟨0, 0, 1⟩ ⟨0, 0, 1⟩ ⟨0, 1, 0⟩ ≠ zero3 ∧ cross3 ⟨0, 0, 0⟩ ⟨1, 0, 0⟩ ⟨0, 1, 0⟩ ≠ zero3 := by
   constructor
